@@ -2,6 +2,18 @@
 """seedmeta.py <commit> <seed_results*.json ...>: write what each check reported for each seeded change into seeded/<id>/meta.json"""
 import json, os, sys
 HERE = os.path.dirname(os.path.abspath(__file__)); VERIF = os.path.dirname(HERE)
+if sys.argv[1] == "--summary":
+    import glob
+    rows = []
+    for d in sorted(glob.glob(os.path.join(VERIF, "seeded", "*"))):
+        m = json.load(open(os.path.join(d, "meta.json")))
+        db = m.get("detected_by", {})
+        rows.append((m["id"], m.get("round", 1), any(v.get("exit") for v in db.values()), any(v.get("concrete_input") for v in db.values()),
+                     ",".join(sorted(c for c, v in db.items() if v.get("exit"))), sorted({v.get("commit", "") for v in db.values()})))
+    for r in rows:
+        print("%-7s round %d  %-12s %-18s by %-10s at %s" % (r[0], r[1], "detected" if r[2] else "MISSED", "concrete input" if r[3] else ("no input" if r[2] else ""), r[4], ",".join(r[5])))
+    print("%d changes, %d detected, %d with a concrete input" % (len(rows), sum(r[2] for r in rows), sum(r[3] for r in rows)))
+    sys.exit(0)
 commit = sys.argv[1]
 res = {}
 for f in sys.argv[2:]:
